@@ -335,6 +335,25 @@ def rule_x4(ctx, R):
             R.inst(fn, "deadline-cleared", {"function": fn[len(ENGINE):], "at": b.loc(i), "index_remove_reachable": ok})
             if not ok:
                 R.finding(fn, "deadline-cleared:no-index-remove", "deadline cleared (line %d) without removing the expiry-index entry" % b.bb_line(i), b.loc(i))
+    # moved entries: a whole StoredValue taken out of the map (remove / take) and stored under
+    # another key carries its deadline along: the index entry has to be made for the new key
+    nm_ = 0
+    for fn, b in shared.engine_bodies(ctx.prog).items():
+        ins = [i for i, t in b.calls() if re.search(IDX + r"insert\b", t["f"])]
+        for i, t in b.calls():
+            if b.bbs[i]["cleanup"] or not re.search(SHARD_MAP + r"insert\b", t["f"] or "") or len(t["a"]) < 3 or op_is_const(t["a"][2]):
+                continue
+            P = prov.operand_origins(b, t["a"][2], stop_calls=re.compile(SHARD_MAP))
+            moved = [r for r in P.roots if r[0] == "call" and re.search(SHARD_MAP + r"(remove|remove_entry)\b", r[1])]
+            if not moved:
+                continue
+            nm_ += 1
+            ok = any(j in cfg.fwd(b, [i]) | cfg.bwd(b, [i]) for j in ins)
+            R.inst(fn, "moved-entry", {"function": fn[len(ENGINE):], "at": b.loc(i), "index_entry_made_for_the_new_key": ok})
+            if not ok:
+                R.finding(fn, "moved-entry:index-not-moved",
+                          "%s stores an entry it took out of the map (line %d) under another key without adding that key to the expiry index: the value keeps its deadline but the sweeper never visits the new key (SET src v PX 300; RENAME src dst: dst is never deleted at its deadline, it stays visible to TYPE / KEYS / DBSIZE)" % (fn.split("::")[-1], b.bb_line(i)), b.loc(i))
+    R.floor("moved_entry_sites", nm_)
     R.floor("deadline_sites", n)
 
 
